@@ -388,9 +388,19 @@ inline std::string sanitizer_class(const std::string& errtext) {
     // "AddressSanitizer: heap-use-after-free /path/file.h:56 in func" -> "asan:heap-use-after-free in func"
     std::string tool = line.substr(0, line.find(':'));
     std::string rest = line.substr(line.find(':') + 2);
-    std::string kind = rest, func;
-    size_t sp = rest.find(" /");
-    if (sp != std::string::npos) kind = rest.substr(0, sp);
+    // kind = the words before the first token that looks like a location ("/path", "../path", "0x...", "(...")
+    std::string kind, func;
+    {
+        size_t p = 0;
+        while (p < rest.size()) {
+            size_t e = rest.find(' ', p);
+            std::string tok = rest.substr(p, e == std::string::npos ? std::string::npos : e - p);
+            if (tok.find('/') != std::string::npos || tok.rfind("0x", 0) == 0 || tok.rfind("(", 0) == 0 || tok == "in") break;
+            kind += (kind.empty() ? "" : " ") + tok;
+            if (e == std::string::npos) break;
+            p = e + 1;
+        }
+    }
     size_t in = rest.find(" in ");
     if (in != std::string::npos) func = rest.substr(in + 4);
     size_t par = func.find('(');
